@@ -753,8 +753,69 @@ class Interp:
             return self.named_const(c.val)
         raise Unsupported('const %r' % (c,))
 
+    def decode_alloc(self, data, relocs, off, ty):
+        """value of type `ty` stored at byte offset `off` of a static allocation (little endian, declared field order with
+        natural alignment - checked against the native build by the translator validation of every check)"""
+        k = ty.kind
+        if k in ('int', 'bool', 'char'):
+            nb = {'bool': 1, 'char': 4}.get(k, (ty.bits or 8) // 8)
+            return int.from_bytes(data[off:off + nb], 'little'), nb, nb
+        if k == 'array':
+            vals = []
+            o = off
+            al = 1
+            for _ in range(ty.n):
+                v, sz, al = self.decode_alloc(data, relocs, o, ty.args[0])
+                vals.append(v)
+                o += sz
+            return self.mk(vals), o - off, al
+        if k == 'tuple':
+            vals = []
+            o = off
+            al = 1
+            for t in ty.args:
+                _, sz_, a_ = self.decode_alloc(data, relocs, 0, t) if False else (None, None, self.align_of(t))
+                o = (o + a_ - 1) // a_ * a_
+                v, sz, _a = self.decode_alloc(data, relocs, o, t)
+                vals.append(v)
+                o += sz
+                al = max(al, a_)
+            o = (o + al - 1) // al * al
+            return self.mk(vals), o - off, al
+        if k == 'adt' and ty.name in self.prog.clike:
+            return data[off], 1, 1
+        raise Unsupported('static allocation of type %s' % ty)
+
+    def align_of(self, ty):
+        k = ty.kind
+        if k in ('int',):
+            return min(8, (ty.bits or 8) // 8)
+        if k == 'bool':
+            return 1
+        if k == 'char':
+            return 4
+        if k == 'array':
+            return self.align_of(ty.args[0])
+        if k == 'tuple':
+            return max([self.align_of(t) for t in ty.args] + [1])
+        if k == 'adt' and ty.name in self.prog.clike:
+            return 1
+        raise Unsupported('alignment of %s' % ty)
+
     def named_const(self, name):
         cache = self.prog._const_cache
+        m_ = re.match(r'^\{(alloc\d+): &(.*)\}$', name)
+        if m_ and m_.group(1) in self.prog.allocs:
+            key = 'alloc:' + name
+            if key not in cache:
+                data, relocs = self.prog.allocs[m_.group(1)]
+                if relocs:
+                    raise Unsupported('static allocation with pointers (%s)' % name)
+                ty = P.parse_type(m_.group(2))
+                v, sz, al = self.decode_alloc(data, relocs, 0, ty)
+                cache[key] = v
+            v = cache[key]            # shared, read-only: a write through it would be a write to a non-mut static
+            return Ptr(self.mk([v]), 0)
         f = self.prog.find_const(name)
         if f is None:
             if name in ('RangeFull', 'std::ops::RangeFull'):
